@@ -65,6 +65,51 @@ def run_fakenews_impl(c):
     return HetBlock.J_from_F(F).tolist()
 
 
+HEADER_JAC = ('From Coq Require Import ZArith QArith Qcanon List Arith Bool.\nFrom SSJ Require Import Model.HetLoop Model.HetPath Model.HetJac.\nImport ListNotations.\nOpen Scope nat_scope.\n')
+
+
+def correspondence_toy(ctx, n):
+    """HetBlock.jacobian of the fixture household (tools/props/C09.py: polynomial backward step clipped to the grid, Markov matrix moved by a hetinput) vs the executable rational instance
+    of the four parts of the fake-news algorithm INCLUDING the difference quotients (Model/HetJac.v): inputs r, w and the Markov shifter, outputs A and C, one- and two-sided, h in {1e-4, 2^-10}"""
+    from fractions import Fraction
+    from props import C09 as P9
+    rng = ctx['rng']
+    m = P9.load_toy()
+    blk = m.toy_block
+    qf = lambda v: (lambda fr: f'(hq {C.zs(fr.numerator)} {fr.denominator}%positive)')(Fraction(float(v)))
+    qarr = lambda A: C.coq_list(np.asarray(A).tolist(), lambda r: C.coq_list(r, qf))
+    cases, exprs, dis = [], [], []
+    for _ in range(n):
+        g = P9.gen_toy(rng)
+        T = rng.randint(2, 4)
+        calib = dict(a_grid=np.array(g['a_grid']), e_grid=np.array(g['e_grid']), Pi_ss=np.array(g['Pi']), shift=0.0, r=g['r'], w=g['w'], kappa=g['kappa'])
+        h, two = rng.choice([1e-4, 2.0 ** -10]), rng.random() < 0.5
+        try:
+            ss = blk.steady_state(calib)
+            J = blk.jacobian(ss, ['r', 'w', 'shift'], ['A', 'C'], T=T, h=h, twosided=two)
+        except Exception as ex:
+            dis.append(dict(what=f'fixture household jacobian raised {type(ex).__name__}: {ex}', case=g))
+            continue
+        it = ss.internals[blk.name]
+        for which, out_c in rng.sample([(w_, o_) for w_ in range(3) for o_ in (False, True)], 2):
+            exprs.append(f'run_toy_jac {g["nz"]} {g["na"]} {T} {C.coq_list(g["a_grid"], qf)} {C.coq_list(g["e_grid"], qf)} {qarr(g["Pi"])} {qf(g["kappa"])} '
+                         f'{{| i_r := {qf(ss["r"])}; i_w := {qf(ss["w"])}; i_shift := {qf(ss["shift"])} |}} {qarr(it["V"])} {qarr(it["a"])} {qarr(it["c"])} {qarr(it["Pi"])} {qarr(it["Dbeg"])} '
+                         f'{qf(h)} {"true" if two else "false"} {which} {"true" if out_c else "false"}')
+            cases.append((dict(g, T=T, h=h, twosided=two, input=['r', 'w', 'shift'][which], output='C' if out_c else 'A'), np.asarray(J['C' if out_c else 'A'][['r', 'w', 'shift'][which]])))
+    vals, logs = C.eval_in_coq('C01', HEADER_JAC, exprs, chunk=1, tag='toyjac')
+    for (c, Ji), vm in zip(cases, vals):
+        if vm is None:
+            continue
+        Jm = np.array([[float(Fraction(int(x[0]), int(x[1]))) for x in r] for r in vm])
+        scale = max(1.0, np.abs(Jm).max())
+        if Jm.shape != Ji.shape or np.abs(Jm - Ji).max() > 1e-9 * scale:       # the implementation's difference quotients lose about eps / h of their digits
+            dis.append(dict(what='HetBlock.jacobian of the fixture household differs from the executable fake-news model (difference quotients included)',
+                            case=dict(c, impl=Ji.tolist(), model=Jm.tolist(), max_abs_diff=float(np.abs(Jm - Ji).max()))))
+    for l in logs:
+        dis.append(dict(what='coq evaluation failed', log=l))
+    return cases, exprs, dis
+
+
 def correspondence(ctx):
     from sequence_jacobian.blocks.het_block import HetBlock
     rng = ctx['rng']
@@ -102,8 +147,10 @@ def correspondence(ctx):
                 dis.append(dict(what='HetBlock.expectation_vectors + build_F + J_from_F differ from the direct linear recursion of the model', case=c, impl=got, model=direct))
     for l in logs:
         dis.append(dict(what='coq evaluation failed', log=l))
-    return dict(evaluations=len(cases), distinct_nontrivial=len({C.canon(c) for c in cases}),
-                rule='random integer fake-news matrices (T 1..7) through HetBlock.J_from_F vs the model recursion; random integer linear systems (2 or 4 states, flat or 2x2 state '
+    casesJ, exprsJ, disJ = correspondence_toy(ctx, 8 if ctx['tier'] == 'quick' else 60)
+    dis += disJ
+    return dict(evaluations=len(cases) + len(exprsJ), distinct_nontrivial=len({C.canon(c) for c in cases}) + len({C.canon(c[0]) for c in casesJ}),
+                rule='HetBlock.jacobian of a fixture household (polynomial backward step clipped to the grid, Markov shifter hetinput; inputs r, w, shifter; outputs A, C; horizons 2-4; one- and two-sided, h in {1e-4, 2^-10}) vs the executable rational instance of the four parts of the fake-news algorithm including the difference quotients (Model/HetJac.v), 1e-9; random integer fake-news matrices (T 1..7) through HetBlock.J_from_F vs the model recursion; random integer linear systems (2 or 4 states, flat or 2x2 state '
                      'arrays, T 2..6, mass-preserving forward matrix, zero-mass distribution perturbations) through the code\'s expectation_vectors (demeaned) + build_F + J_from_F '
                      'vs the model\'s fake-news assembly AND the model\'s direct linear recursion, exact',
                 samples=cases[:1] + cases[n:n + 1], disagreements=dis, stats=dict(fakenews_state_sizes=sorted({c['N'] for c in cases if c['kind'] == 'fakenews'})))
